@@ -190,3 +190,169 @@ def gatherer_accounting(ob, tier):
 
 def run(ob, tier):
     return {"flag": flag_propagates, "verdict": verdict_function, "gatherer": gatherer_accounting}[ob["which"]](ob, tier)
+
+
+# ---------------------------------------------------------------- dispatch bookkeeping
+_run_c09 = run
+
+
+def scatter(ob, tier):
+    """Server::scatter_on: every worker the liveness filter selects is sent the request,
+    counted in the task's expected responses and registered in `in_flight`, whatever the send
+    reports — a worker that was alive at dispatch but not counted lets the others' OKs finish
+    the task and the client is told OK although that worker never acknowledged."""
+    fn = mirrun.get_fn("bin", "::scatter_on")
+    ex = engine.Executor(fn, loop_bound=lambda f, h: 1, max_nodes=200000)
+    ev = ex.run()
+    for i, e in enumerate(ev):
+        e.seq = i
+    q = Q(ex.ctx)
+    res = {"paths": ex.stats["nodes"], "functions": [fn.name]}
+    it0 = [e for e in ev if e.node[1] and all(i == 0 for _, i in e.node[1])]
+    nxt = [e for e in it0 if e.kind == "call" and re.search(r"as Iterator>::next$", e.callee)]
+    send = [e for e in it0 if e.kind == "call" and e.callee.endswith("WorkerSession::send")]
+    reg = [e for e in it0 if e.kind == "call" and re.search(r"HashMap::<(std::string::)?String, usize>::insert$", e.callee)]
+    cnt = [e for e in it0 if e.kind == "assert" and "+" in e.msg]
+    inc = [e for e in ev if e.kind == "call" and e.callee.endswith("::inc_expected_responses")]
+    if len(nxt) != 1 or len(send) != 1 or not inc:
+        return dict(res, verdict="inconclusive", why="shape: worker iterator calls=%d send calls=%d inc_expected_responses=%d" % (len(nxt), len(send), len(inc)))
+    d = nxt[0].result_discr or ex.initial.get("discr(%s)" % nxt[0].dest)
+    picked = engine.AND(nxt[0].guard, "(= %s %s)" % (d.term, engine.bv(1, 64)))
+    # reaching the next pass (or the end of the loop) means the body completed for this worker
+    done = [ex.node_guard.get((nxt[0].node[0], ((nxt[0].node[1][-1][0], 1),)))]
+    done = [g for g in done if g]
+    body_done = engine.AND(picked, engine.OR(*done)) if done else picked
+    problems = []
+    if q([body_done, engine.NOT(send[0].guard)])[0] != "unsat":
+        problems.append("a selected worker can be skipped without being sent the request")
+    if not reg or q([body_done, engine.NOT(engine.OR(*[r.guard for r in reg]))])[0] != "unsat":
+        problems.append("a selected worker's request can go unregistered in in_flight (its answer would be unroutable, and it is not waited for)")
+    if not cnt or q([body_done] + [engine.NOT(engine.NOT(c.guard)) for c in []] + [engine.NOT(engine.OR(*[ex.node_guard.get(c.node, "false") for c in cnt]))])[0] != "unsat":
+        problems.append("a selected worker can be left out of the expected-response count: the other workers' answers then finish the task and the verdict is OK without its acknowledgement")
+    wit = [q([body_done])[0]]
+    res["witness"] = "a worker pass completes: %s; sends=%d registrations=%d counter increments=%d" % (wit, len(send), len(reg), len(cnt))
+    res["witness_ok"] = all(w == "sat" for w in wit)
+    res["queries"], res["solver_s"] = q.n, round(q.secs, 2)
+    if problems:
+        return dict(res, verdict="counterexample", text="; ".join(problems), model={"problems": problems}, replay={"reproduced": False, "why": "no native replay"})
+    return dict(res, verdict="holds")
+
+
+def upgrade_ids(ob, tier):
+    """CommandHub::from_upgrade_data: the id counters of the old main process are carried into
+    the new one.  Worker channels survive the re-exec and answers are routed purely by the id
+    string `{verb}-{worker}-{task}-{index}`: restarting task ids at 0 lets a slow worker's late
+    answer to the old main's request satisfy a new client's request of the same verb."""
+    fn = mirrun.get_fn("bin", "::from_upgrade_data")
+    ex = engine.Executor(fn, loop_bound=lambda f, h: 1, max_nodes=200000)
+    ev = ex.run()
+    q = Q(ex.ctx)
+    res = {"paths": ex.stats["nodes"], "functions": [fn.name]}
+
+    def fields(path, struct):
+        src = open(mirrun.REPO + path).read()
+        m = re.search(r"pub struct %s \{(.*?)\n\}" % struct, src, re.S)
+        return re.findall(r"^\s*(?:pub(?:\([\w:]+\))? )?(\w+):", re.sub(r"//.*", "", m.group(1)), re.M)
+    up = fields("/bin/src/command/upgrade.rs", "UpgradeData")
+    sv = fields("/bin/src/command/server.rs", "Server")
+    server = fn.debug.get("server")
+    rets = [e for e in ev if e.kind == "return"]
+    d0 = rets[0].env.get("discr(_0)") if len(rets) == 1 else None
+    if server is None or d0 is None:
+        return dict(res, verdict="inconclusive", why="shape: server local=%s" % server)
+    ok = engine.AND(rets[0].guard, "(= %s %s)" % (d0.term, engine.bv(0, 64)))
+    problems, wit = [], []
+    for name in ("next_client_id", "next_session_id", "next_task_id", "next_worker_id"):
+        if name not in up or name not in sv:
+            continue
+        # locals bound to upgrade_data.<name>
+        srcs = set()
+        for b in fn.blocks.values():
+            for st in b["stmts"]:
+                m = re.match(r"^(_\d+) = (?:copy|move) \(_1\.%d: " % up.index(name), st)
+                if m:
+                    srcs.add(m.group(1))
+        sites = []
+        for bb, b in fn.blocks.items():
+            for st in b["stmts"]:
+                m = re.match(r"^\(%s\.%d: [^)]*\) = (?:copy|move) (_\d+)$" % (re.escape(server), sv.index(name)), st)
+                if m and m.group(1) in srcs:
+                    g = ex.node_guard.get((bb, ()))
+                    if g:
+                        sites.append(g)
+        if not sites or q([ok, engine.NOT(engine.OR(*sites))])[0] != "unsat":
+            problems.append("the new main process does not take over `%s` from the upgrade data (ids restart: a late answer addressed to the old main can match a new request)" % name)
+        wit.append(len(sites))
+    wq = q([ok])[0]
+    res["witness"] = "Ok return reachable: %s; restore sites per counter: %s" % (wq, wit)
+    res["witness_ok"] = wq == "sat" and len(wit) == 4
+    res["queries"], res["solver_s"] = q.n, round(q.secs, 2)
+    if problems:
+        return dict(res, verdict="counterexample", text="; ".join(problems), model={"problems": problems}, replay={"reproduced": False, "why": "no native replay"})
+    return dict(res, verdict="holds")
+
+
+def run(ob, tier):
+    if ob["which"] == "scatter":
+        return scatter(ob, tier)
+    if ob["which"] == "upgrade_ids":
+        return upgrade_ids(ob, tier)
+    return _run_c09(ob, tier)
+
+
+_run_c09b = run
+
+
+def finish_once(ob, tier):
+    """every GatheringTask::on_finish in bin/src/command: on each path at most one *final*
+    answer (finish_ok / finish_ok_with_content / finish_failure) is sent to the client — a
+    client of the command socket receives exactly one final answer per request"""
+    path = mirrun.dump("bin")
+    idx = mirrun._index["bin"]
+    from .. import parse
+    fns = []
+    for n in sorted(idx):
+        if n.endswith("::on_finish"):
+            for (s0, e0, head) in idx[n]:
+                if "OptionalClient" in head or "Option<&mut" in head:
+                    fns.append(parse.load_function(path, s0, e0))
+    if len(fns) < 5:
+        return {"verdict": "inconclusive", "why": "only %d on_finish implementations found in the MIR" % len(fns)}
+    problems, nodes, tq, ts, sites = [], 0, 0, 0.0, 0
+    names = []
+    for fn in fns:
+        ex = engine.Executor(fn, loop_bound=lambda f, h: 1, max_nodes=200000)
+        try:
+            ev = ex.run()
+        except engine.Unsupported as e:
+            problems.append("shape: %s not executable (%s)" % (fn.name.split("::")[-2][:40], str(e)[:60]))
+            continue
+        q = Q(ex.ctx)
+        nodes += ex.stats["nodes"]
+        names.append(fn.name)
+        finals = [e for e in ev if e.kind == "call" and re.search(r"MessageClient>::finish_(ok|ok_with_content|failure)(::<.*>)?$", e.callee)]
+        sites += len(finals)
+        bad = False
+        for i in range(len(finals)):
+            for j in range(i + 1, len(finals)):
+                if not bad and q([finals[i].guard, finals[j].guard])[0] != "unsat":
+                    m = re.search(r"requests\.rs:(\d+):", fn.name)
+                    problems.append("on_finish (impl at requests.rs:%s) can send two final answers to the client on one path (%s then %s)" % (
+                        m.group(1) if m else "?", finals[i].callee.split("::")[-1].split("<")[0] if "::<" not in finals[i].callee.split("MessageClient>::")[-1] else finals[i].callee.split("MessageClient>::")[-1].split("::<")[0],
+                        finals[j].callee.split("MessageClient>::")[-1].split("::<")[0]))
+                    bad = True
+        tq += q.n
+        ts += q.secs
+    res = {"paths": nodes, "functions": names[:12], "witness": "%d on_finish implementations, %d final-answer sites" % (len(names), sites),
+           "witness_ok": len(names) >= 5 and sites >= 5, "queries": tq, "solver_s": round(ts, 2)}
+    if problems:
+        r = mirrun.native_test("c09_stop_answers", "", features=("bin",), rustflags="--cfg sozu_verif")
+        rp = {"reproduced": r["ran"] and r["failed"], "path": os.path.join(mirrun.VERIF, "replay/tests/c09_stop_answers.rs"), "log": r["log"]}
+        return dict(res, verdict="counterexample", text="; ".join(problems), model={"problems": problems}, replay=rp)
+    return dict(res, verdict="holds")
+
+
+def run(ob, tier):
+    if ob["which"] == "finish_once":
+        return finish_once(ob, tier)
+    return _run_c09b(ob, tier)
